@@ -424,6 +424,106 @@ fn configs(k: usize, tier: Tier) -> Vec<Cfg> {
     out
 }
 
+/// the application's route to a cost model: CostModelService::build with weights and vehicle rates from the configuration or
+/// from the query (a query's vehicle_rates replace the configured map as a whole, so a feature can be weighted and surcharged
+/// without having a vehicle rate). The model it builds must charge what a model built directly from the same effective
+/// weights, rates and network rates charges, on every state pair
+fn service_route(st: &mut Stats) {
+    use routee_compass::app::compass::config::cost_model::cost_model_service::CostModelService;
+    let net = Net { n: 3, edges: vec![(0, 1, 1.0), (1, 2, 1.0)], xy: None };
+    let graph = Arc::new(net.graph());
+    let e0 = *graph.get_edge(&EdgeId(0)).unwrap();
+    let e1 = *graph.get_edge(&EdgeId(1)).unwrap();
+    let vals = [-1.0, 0.0, 2.0];
+    for k in 1..=2usize {
+        let sm = Arc::new(StateModel::new((0..k).map(|i| (format!("f{}", i), StateFeature::Distance { distance_unit: DistanceUnit::Meters, initial: Distance::new(0.0) })).collect()));
+        let states = all_vecs(&vals, k);
+        let weight_sets: Vec<Vec<f64>> = if k == 1 { vec![vec![1.0], vec![2.0]] } else { vec![vec![1.0, 1.0], vec![2.0, 0.5], vec![1.0, 0.0]] };
+        // which features have a vehicle rate: all, none, all but f0, only f0
+        let rate_sets: Vec<Vec<bool>> = if k == 1 { vec![vec![true], vec![false]] } else { vec![vec![true, true], vec![false, false], vec![false, true], vec![true, false]] };
+        for nr in [NetRate::Zero, NetRate::Edge(3.0), NetRate::Pair(8.0), NetRate::Both(3.0, 8.0), NetRate::EdgeTwice(3.0, -2.0, false)] {
+            for w in weight_sets.iter() {
+                for has in rate_sets.iter() {
+                    for from_query in [false, true] {
+                        st.states += 1;
+                        st.nontrivial += 1;
+                        let weights: HashMap<String, f64> = w.iter().enumerate().map(|(i, x)| (format!("f{}", i), *x)).collect();
+                        let rates: HashMap<String, routee_compass_core::model::cost::vehicle::vehicle_cost_rate::VehicleCostRate> = has.iter().enumerate().filter(|(_, h)| **h).map(|(i, _)| (format!("f{}", i), Rate::Factor(0.5).real())).collect();
+                        let mut nets = HashMap::new();
+                        if nr != NetRate::Zero {
+                            nets.insert("f0".to_string(), nr.real());
+                        }
+                        // configured: everything rated raw and weighted 1; the query may bring the weights and rates under test
+                        let all_raw: HashMap<String, _> = (0..k).map(|i| (format!("f{}", i), Rate::Raw.real())).collect();
+                        let all_one: HashMap<String, f64> = (0..k).map(|i| (format!("f{}", i), 1.0)).collect();
+                        let service = CostModelService {
+                            vehicle_rates: Arc::new(if from_query { all_raw } else { rates.clone() }),
+                            network_rates: Arc::new(nets.clone()),
+                            weights: Arc::new(if from_query { all_one } else { weights.clone() }),
+                            cost_aggregation: CostAggregation::Sum,
+                            ignore_unknown_weights: true,
+                        };
+                        let query = if from_query {
+                            json!({"weights": weights, "vehicle_rates": has.iter().enumerate().filter(|(_, h)| **h).map(|(i, _)| (format!("f{}", i), json!({"type": "factor", "factor": 0.5}))).collect::<serde_json::Map<String, Value>>()})
+                        } else {
+                            json!({})
+                        };
+                        let case = || json!({"service_route": true, "features": k, "weights": w, "features_with_a_vehicle_rate": has, "network_rate": nr, "weights_and_rates_from_query": from_query});
+                        let comp = format!("cost_model_service.{}", nr.name());
+                        let built = guarded(|| service.build(&query, sm.clone()).map_err(|e| e.to_string()));
+                        let direct = guarded(|| CostModel::new(Arc::new(weights.clone()), Arc::new(rates.clone()), Arc::new(nets.clone()), CostAggregation::Sum, sm.clone()).map_err(|e| e.to_string()));
+                        let (a, b) = match (built, direct) {
+                            (Err(p), _) | (_, Err(p)) => {
+                                st.violation(&comp, "no_panic", k as u64, || p.clone(), case);
+                                continue;
+                            }
+                            (Ok(a), Ok(b)) => (a, b),
+                        };
+                        let (a, b) = match (a, b) {
+                            (Ok(a), Ok(b)) => (a, b),
+                            (Err(_), Err(_)) => {
+                                st.outcome("service_and_direct_both_refuse");
+                                continue;
+                            }
+                            (x, y) => {
+                                st.violation(&comp, "service_builds_the_configured_model", k as u64, || format!("service: {:?} ; direct: {:?}", x.err(), y.err()), case);
+                                continue;
+                            }
+                        };
+                        let mut bad: Option<String> = None;
+                        'pairs: for p in states.iter() {
+                            for n in states.iter() {
+                                st.evaluations += 1;
+                                st.transitions += 2;
+                                st.traces += 1;
+                                let ps: Vec<StateVar> = p.iter().map(|x| StateVar(*x)).collect();
+                                let ns: Vec<StateVar> = n.iter().map(|x| StateVar(*x)).collect();
+                                let ta = a.traversal_cost(&e1, &ps, &ns).map(|c| c.as_f64()).map_err(|e| e.to_string());
+                                let tb = b.traversal_cost(&e1, &ps, &ns).map(|c| c.as_f64()).map_err(|e| e.to_string());
+                                let aa = a.access_cost(&e0, &e1, &ps, &ns).map(|c| c.as_f64()).map_err(|e| e.to_string());
+                                let ab = b.access_cost(&e0, &e1, &ps, &ns).map(|c| c.as_f64()).map_err(|e| e.to_string());
+                                let same = |x: &Result<f64, String>, y: &Result<f64, String>| match (x, y) {
+                                    (Ok(x), Ok(y)) => close(*x, *y, 1e-12),
+                                    (Err(_), Err(_)) => true,
+                                    _ => false,
+                                };
+                                if !same(&ta, &tb) || !same(&aa, &ab) {
+                                    bad = Some(format!("state {:?} -> {:?}: the service's model charges traversal {:?} access {:?}, the model built from the same weights and rates charges {:?} / {:?}", p, n, ta, aa, tb, ab));
+                                    break 'pairs;
+                                }
+                            }
+                        }
+                        match bad {
+                            Some(d) => st.violation(&comp, "service_builds_the_configured_model", k as u64, || d, case),
+                            None => st.pass("service_builds_the_configured_model"),
+                        }
+                    }
+                }
+            }
+        }
+    }
+}
+
 pub fn run(tier: Tier) -> i32 {
     let info = RunInfo::new("C07", tier);
     let mut total = Stats::new();
@@ -501,10 +601,11 @@ pub fn run(tier: Tier) -> i32 {
         });
         total.merge(st);
     }
+    service_route(&mut total);
     finish(
         &info,
         total,
-        "state = one cost configuration (1-3 features, weight vector over {-1,0,0.5,1,2} with non-zero sum (sum aggregation: also scaled by 1e-12 and 3e-14, far below the floor), rate per feature from 8 mappings incl. nested combined (one feature: every rate term of bounded shape - atoms and Combined lists up to length 2/3 whose elements are atoms or nested Combined lists), network rate from {none, edge lookup, edge-pair lookup, combined, negative edge lookup, combined toll and credit for one edge in either order (plain and nested)}, sum/mul); transition = one call of traversal_cost / access_cost / cost_estimate on a (prev,next) state pair from {-2..2}^k, or one forward/reverse EdgeTraversal with synthetic access/traversal models applying chosen deltas; non-trivial = negative weight or non-raw rate",
+        "state = one cost configuration (1-3 features, weight vector over {-1,0,0.5,1,2} with non-zero sum (sum aggregation: also scaled by 1e-12 and 3e-14, far below the floor), rate per feature from 8 mappings incl. nested combined (one feature: every rate term of bounded shape - atoms and Combined lists up to length 2/3 whose elements are atoms or nested Combined lists), network rate from {none, edge lookup, edge-pair lookup, combined, negative edge lookup, combined toll and credit for one edge in either order (plain and nested)}, sum/mul); also the application's CostModelService::build (weights and vehicle rates from configuration or query, features with and without a vehicle rate) against a model built directly from the same effective values; transition = one call of traversal_cost / access_cost / cost_estimate on a (prev,next) state pair from {-2..2}^k, or one forward/reverse EdgeTraversal with synthetic access/traversal models applying chosen deltas; non-trivial = negative weight or non-raw rate",
         true,
         json!({"features": "1..3", "state_values": VALS, "weights": WEIGHTS, "rate_mappings": 8, "network_rates": 5}),
         vec!["reference = closed-form sum over features of weight x rated change + surcharges, floored at 1e-10 (Cost::MIN_COST)".into()],
@@ -512,6 +613,16 @@ pub fn run(tier: Tier) -> i32 {
 }
 
 pub fn replay(case: &Value) -> i32 {
+    let case = if case.get("case").is_some() && case.get("cfg").is_none() { &case["case"] } else { case };
+    if case.get("service_route").is_some() {
+        // the whole service-route section is run again (a few hundred builds)
+        let mut st = Stats::new();
+        service_route(&mut st);
+        for (k, g) in st.violations.iter() {
+            println!("REPLAY-VIOLATION {} ({} cases) {}", k, g.count, g.detail);
+        }
+        return if st.violations.is_empty() { 0 } else { 1 };
+    }
     let cfg: Cfg = match serde_json::from_value(case["cfg"].clone()) {
         Ok(c) => c,
         Err(e) => {
